@@ -457,6 +457,30 @@ def import_error_class(run):
                 except Exception as e:
                     kind = '%s: %s' % (type(e).__name__, e)
                 prove('%s-raises-ImportError' % label, kind == 'ImportError', clause='unresolvable names raise ImportError [%s]' % kind, path=path)
+            # a file name without a directory part (an unsaved buffer: '<string>', 'mod.py'), asked from a working directory that is a package
+            # and no search root: in a child process, because the obligation is that it comes back at all
+            import subprocess
+            import sys as _sys
+            open(os.path.join(d, '__init__.py'), 'w').close()
+            script = ('import sys; sys.path[:] = [%r] + [p for p in sys.path if p not in ("", ".")]\n'
+                      'from supp.project import Project\nfrom supp.assistant import location\nfrom supp.linter import lint\n'
+                      'p = Project(["/nonexistent-root"])\n'
+                      'for fn in ("mod.py", "<string>"):\n'
+                      '    try:\n        print("norm_package ->", p.norm_package(".x", fn))\n    except ImportError as e:\n        print("ImportError")\n'
+                      'print(len(location(p, "from . import x\\nx.y", (2, 1))), len(lint(p, "from . import x\\nprint(x.y)\\n")))\nprint("TERMINATED")\n') % core.REPO
+            try:
+                r = subprocess.run([_sys.executable, '-c', script], cwd=d, capture_output=True, text=True, timeout=30)
+                outcome = 'terminated' if 'TERMINATED' in r.stdout else 'failed: %s' % (r.stderr.strip().splitlines() or ['?'])[-1]
+            except subprocess.TimeoutExpired:
+                outcome = 'no answer within 30 s'
+            if outcome != 'terminated':
+                core.RUN.concretise = lambda model, ob: {'input': 'working directory with __init__.py that is no search root; norm_package(".x", "mod.py")', 'script': (
+                    'import os, sys, tempfile, subprocess\nd = tempfile.mkdtemp(); open(os.path.join(d, "__init__.py"), "w").close()\n'
+                    'try:\n    subprocess.run([sys.executable, "-c", %r], cwd=d, timeout=20); print("not reproduced")\n'
+                    'except subprocess.TimeoutExpired:\n    print("REPRODUCED: a relative name asked for an unsaved buffer does not come back (the climb never leaves the empty directory name)")\n') % script}
+            prove('relative-name-of-a-file-without-a-directory-terminates', outcome == 'terminated',
+                  clause='norm_package / location / lint answer (ImportError or a result) for a bare file name in a package working directory [%s]' % outcome, path=path)
+            core.RUN.concretise = None
         finally:
             import shutil
             shutil.rmtree(d, ignore_errors=True)
